@@ -166,6 +166,147 @@ def sample_programs(lines, k=3):
     return lines[:k]
 
 
+
+# ---------------------------------------------------------------- outcome keys / oracle
+def key_of_logs(ops):
+    """Same function as key_of_logs in ocaml/driver.ml."""
+    last = {}
+    for b, pc, r in ops:
+        if b < 0:
+            continue
+        last[(b, pc)] = r
+    bodies = sorted({b for b, _ in last})
+    return ";".join(
+        f"{b}:" + ",".join(f"{pc}={last[(b2, pc)]}" for (b2, pc) in sorted(last) if b2 == b) for b in bodies)
+
+
+def failure_key(run, ops):
+    """run = 'panic iters=N <class...>' -> outcome key of the failing iteration"""
+    w = run.split()
+    cls = w[2:]
+    if cls[0] == "deadlock":
+        return "deadlock"
+    if cls[0] == "leak":
+        return f"leak {cls[1]} {cls[2]}|" + key_of_logs(ops)
+    if cls[0] == "user":
+        return "panic"
+    if cls[0] == "causality":
+        return "causality"
+    return "internal:" + " ".join(cls)
+
+
+def impl_keys(parsed):
+    """-> (set of outcome keys of all iterations, final: 'ok' or failure key)"""
+    keys = set()
+    its = parsed["iterations"]
+    run = parsed["run"] or ""
+    failed = run.startswith("panic")
+    for n, it in enumerate(its):
+        if failed and n == len(its) - 1:
+            keys.add(failure_key(run, it["ops"]))
+        else:
+            keys.add("ok|" + key_of_logs(it["ops"]))
+    return keys, (failure_key(run, its[-1]["ops"]) if failed and its else "ok")
+
+
+def driver_keys(mode, file):
+    out, code, err = corr.run_driver(mode, file)
+    if code != 0:
+        raise RuntimeError("driver " + mode + " failed: " + err[:300])
+    res = {}
+    cur = None
+    for l in out.splitlines():
+        if l.startswith("PROG "):
+            cur = int(l.split()[1])
+            res[cur] = {"keys": set(), "run": None}
+        elif l.startswith("K "):
+            res[cur]["keys"].add(l[2:])
+        elif l.startswith("RUN "):
+            res[cur]["run"] = l[4:]
+    return res
+
+
+def is_failure(k):
+    return not k.startswith("ok|")
+
+
+def oracle_deviations(ikeys, ifinal, rkeys):
+    """Compare the implementation's outcome set with the reference set R.
+    Returns a list of deviation strings (empty = the program behaves as R says)."""
+    dev = []
+    rfail = {k for k in rkeys if is_failure(k)}
+    rok = rkeys - rfail
+    if "ref-out-of-fuel" in rkeys:
+        return ["ref-out-of-fuel"]
+    if ifinal == "ok":
+        for k in sorted(rfail):
+            dev.append("missed-failure:" + k.split("|")[0])
+        for k in sorted(rok - ikeys):
+            dev.append("missing:" + k)
+    else:
+        base = ifinal.split("|")[0]
+        if ifinal not in rkeys and not any(k.split("|")[0] == base for k in rfail if base in ("deadlock", "panic")):
+            dev.append("spurious-failure:" + ifinal)
+    for k in sorted(k for k in ikeys if not is_failure(k) and k not in rok):
+        dev.append("forbidden:" + k)
+    return dev
+
+
+def norm_prog(line):
+    """program text without its id"""
+    return line.split("|", 1)[1].strip()
+
+
+class Known:
+    """known_findings.json: listed findings are identified by the exact input
+    (program text) and the exact deviation observed on it."""
+
+    def __init__(self, root, pid):
+        self.entries = []
+        p = os.path.join(root, "known_findings.json")
+        if os.path.exists(p):
+            d = json.load(open(p))
+            self.entries = [e for e in d.get("known", []) if pid in e.get("properties", [e.get("property")])]
+        self.hits = {}
+
+    def match(self, prog_line, deviation):
+        np = norm_prog(prog_line)
+        for e in self.entries:
+            for inst in e.get("instances", []):
+                if inst["prog"] == np and inst["deviation"] == deviation:
+                    self.hits[e["id"]] = self.hits.get(e["id"], 0) + 1
+                    return e["id"]
+        return None
+
+    def lines(self):
+        out = []
+        for e in self.entries:
+            if e["id"] in self.hits:
+                out.append(f"{e['id']} {e['what']} [{e['call_site']}] witness: {e['witness']} ({self.hits[e['id']]} listed inputs reproduced)")
+        return out
+
+
+def oracle_compare(ctx, fam, known, ref_mode="ref"):
+    """For every program of the family: implementation outcome set vs R.
+    Returns (violations, nknown, stats)."""
+    rk = driver_keys(ref_mode, fam.file)
+    violations = []
+    nknown = 0
+    ndev_progs = 0
+    for i, p in sorted(fam.parsed.items()):
+        ik, ifinal = impl_keys(p)
+        devs = oracle_deviations(ik, ifinal, rk[i]["keys"])
+        if devs:
+            ndev_progs += 1
+        for d in devs:
+            if known.match(fam.lines[i], d):
+                nknown += 1
+            else:
+                violations.append({"prog": fam.lines[i], "deviation": d,
+                                   "impl_outcomes": sorted(ik)[:12], "ref_outcomes": sorted(rk[i]["keys"])[:12]})
+    return violations, nknown, {"oracle_programs": len(fam.parsed), "programs_deviating_from_R": ndev_progs}
+
+
 # ---------------------------------------------------------------- C14
 def c14_analyse(parsed):
     """Direct search on the implementation's own dumps: repeated decision
